@@ -415,10 +415,63 @@ def check_C08(tier):
     return finish('C08', rep, gate)
 
 
+def symlink_probe(tier, rep):
+    """C10 with a symbolic link among the ancestors of the target (not in the models: they have no links): the
+    function receives os.path.abspath of the spelling it was called with - links are not resolved - and after a
+    failure the directories made for the call are gone under that very spelling"""
+    import shutil
+    import tempfile
+    fb = realrun.load_fb()
+    FB = fb.FileBuilder
+    problems = []
+    root = os.path.realpath(tempfile.mkdtemp(prefix='fbh_ln_', dir=realrun.SANDBOX_BASE))
+    try:
+        os.mkdir(os.path.join(root, 'real'))
+        os.symlink(os.path.join(root, 'real'), os.path.join(root, 'link'))
+        cache = os.path.join(root, 'cache.gz')
+        seen = {}
+
+        def ok(b, fn):
+            seen['ok'] = fn
+            with open(fn, 'w') as fh:
+                fh.write('x')
+
+        def bad(b, fn):
+            seen['bad'] = fn
+            with open(fn, 'w') as fh:
+                fh.write('x')
+            raise ValueError('boom')
+
+        def rootf(b):
+            t1 = os.path.join(root, 'link', 'd1', 'out')
+            t2 = os.path.join(root, 'link', 'd2', 'sub', 'out')
+            b.build_file(t1, 'ok', ok)
+            try:
+                b.build_file(t2, 'bad', bad)
+            except ValueError:
+                pass
+            return {'t1': t1, 't2': t2, 'is_file_t1': b.is_file(t1), 'is_dir_d2': b.is_dir(os.path.dirname(os.path.dirname(t2))),
+                    'exists_d2sub': b.exists(os.path.dirname(t2)), 'list_link': sorted(b.list_dir(os.path.join(root, 'link')))}
+        r = FB.build(cache, 'n', rootf)
+        rep.count('symlink_probes')
+        if seen.get('ok') != r['t1'] or seen.get('bad') != r['t2']:
+            problems.append({'what': 'the function did not receive os.path.abspath of the path as spelled', 'passed': seen, 'spelled': [r['t1'], r['t2']]})
+        if not r['is_file_t1'] or r['is_dir_d2'] or r['exists_d2sub'] or r['list_link'] != ['d1']:
+            problems.append({'what': 'view below a symbolic link after a successful and a failed build_file', 'answers': r})
+        if os.path.lexists(os.path.join(root, 'real', 'd2')) or not os.path.isfile(os.path.join(root, 'real', 'd1', 'out')):
+            problems.append({'what': 'tree below a symbolic link after a successful and a failed build_file',
+                             'real': sorted(os.listdir(os.path.join(root, 'real')))})
+    finally:
+        shutil.rmtree(root, ignore_errors=True)
+    return problems
+
+
 def check_C10(tier):
     # "... also when creating those directories, or moving the old file aside, itself fails": a batch of injected faults
     return run_hist_prop('C10', tier, 10, 500, 30000, families=[gen.scen_nested_failure, gen.scen_swap, gen.scen_stale_dir, gen.scen_longname],
-                         per_family=(80, 2000), p_fail=0.1, faults=((4, 100), (40, 2000), 110))
+                         per_family=(80, 2000), p_fail=0.1, faults=((4, 100), (40, 2000), 110),
+                         _after=lambda rep: [rep.violation('symlink', {'property': 'C10', 'kind': 'failing-input', 'what': q},
+                                                           note=json.dumps(q, default=str)[:250]) for q in symlink_probe(tier, rep)[:2]])
 
 
 def check_C12(tier):
